@@ -219,6 +219,28 @@ var c17RuleSpec = &histSpec{Prop: "C17", Alphabet: c17RuleAlphabet, Check: func(
 	c17Check(cfg, hist, r, t, c, outc, pool, paths)
 }}
 
+// c17NamePool: two routes that differ in the name of their parameter and in the end of the literal text after it.
+// A call that is the rename of one of them *to the other's name* is rejected as ambiguous, and it walks the other
+// route's node on the way: rejected, it must not leave that node split (/p/1/b/bc is x=1/b only while {x}/bc is whole).
+var c17NamePool = []string{"/p/{x}/bc", "/p/{y}/bd", "/p/{x}/q"}
+
+func c17NameAlphabet() []Op {
+	var ops []Op
+	for _, p := range c17NamePool {
+		ops = append(ops, Op{K: "handle", P: p, Ms: []string{"GET"}})
+	}
+	for _, p := range c17NamePool {
+		ops = append(ops, Op{K: "remove", P: p})
+	}
+	return ops
+}
+
+var c17NameSpec = &histSpec{Prop: "C17", Alphabet: c17NameAlphabet, Check: func(cfg RouterCfg, hist []Op, r *Router, t *ref.Table, c *explore.Child, outc map[string]struct{}) {
+	pool := append(append([]string{}, c17NamePool...), "/p/{x}/bd", "/p/{y}/bc", "/p/{y}/q", "/p/{y}/b", "/p/{x}/b")
+	paths := []string{"/p/1/bc", "/p/1/bd", "/p/1/q", "/p/1/b/bc", "/p/1/b/bd", "/p/1/bc/bd", "/p/1/b", "/p/1/b/q"}
+	c17Check(cfg, hist, r, t, c, outc, pool, paths)
+}}
+
 // ---- positive clauses over pattern pairs ----
 
 type pairItem struct {
@@ -490,6 +512,7 @@ func c17PairPool(ic string) []string {
 func init() {
 	c17Spec.register("c17/expand")
 	c17RuleSpec.register("c17/expand-rules")
+	c17NameSpec.register("c17/expand-names")
 	explore.RegisterJob("c17/pairs", pairJob)
 	explore.RegisterJob("c17/exotic", exoticJob)
 	explore.Register(&explore.Check{ID: "C17", Run: func(rc *explore.RunCtx) {
@@ -502,6 +525,7 @@ func init() {
 			"states: every history over the C04 alphabet up to the depth bound (dedup on the reflective key), with and without WithTrace",
 			"in every state every call of the rejected-call set X (duplicates, method lists with duplicate/unknown/reserved members in any position, malformed patterns sharing a prefix with live routes, rename-only patterns) is performed on a replayed copy; Routes(), all dispatch outcomes incl. Allow headers and OPTIONS * are compared before/after",
 			"a second history family (depth+1, interceptors I1) over routes below regexp and interceptor parameters that split and re-join the literal text after the parameter; in every state renames of live routes must be rejected and same-shape patterns with a different rule (and every other valid call of X with the list [POST GET]) must be accepted",
+			"a third history family (depth+1) over /p/{x}/bc, /p/{y}/bd, /p/{x}/q: calls that rename one live route to the parameter name of another (rejected as ambiguous after walking the other route's node) must leave values such as /p/1/b/bc resolved as before",
 			"every ordered pair of patterns built from <=2 of 19 unusual tokens (empty rule {a:}, braces inside a rule, '-' flag, literals sharing the first bytes of a multi-byte character): a rejected second call is an error value and changes nothing; where both spellings are within the documented syntax, a rename-only twin is rejected and anything else accepted",
 			"positive clauses: every ordered pair over the dispatch pool and its renamed / '-'-flipped variants under I0/I1/I2")
 		for _, cfg := range []RouterCfg{{}, {Trace: true}} {
@@ -509,6 +533,8 @@ func init() {
 		}
 		// constrained parameters whose literal suffix is split by a sibling route and stays split after its removal
 		explore.BFS(rc, "c17/expand-rules", histCfg{Router: RouterCfg{IC: "I1"}}, depth+1, true, "C17 constrained-parameter histories")
+		// routes that differ in the parameter name: a rename of one to the other's name is rejected and walks the other's node
+		explore.BFS(rc, "c17/expand-names", histCfg{Router: RouterCfg{}}, depth+1, true, "C17 cross-renamed parameters")
 		var items []pairItem
 		for _, ic := range []string{"", "I1", "I2"} {
 			pool := c17PairPool(ic)
